@@ -194,8 +194,20 @@ def bulk_inputs(n, seed):
     iv = np.arange(nv)
     dfv = pd.DataFrame({"Id_1": iv // 64, "Id_2": iv % 64, "Me_1": rng.randint(0, 100, nv) / 4.0, "At_1": np.array(["A", "B", "C"])[rng.randint(0, 3, nv)], "At_2": rng.randint(0, 1000, nv)}).sample(frac=1.0, random_state=seed).reset_index(drop=True)
     compsC = [eng.comp("Id_1", "Integer", "I"), eng.comp("Id_2", "Integer", "I"), eng.comp("Me_1", "Number")]
-    big = np.where(iv % 2 == 0, 1.0, -1.0) * 1e15
-    dfc = pd.DataFrame({"Id_1": iv // 8, "Id_2": iv % 8, "Me_1": big + rng.randint(1, 4000, nv) / 4.0}).sample(frac=1.0, random_state=seed).reset_index(drop=True)
+    # four large partitions of +X / -X pairs with X in 1e14..1e16 (random magnitudes) plus a few small values: the exact (decimal) partition
+    # total is small, a binary floating-point accumulation depends on the order of the rows
+    half = nv // 2
+    mag = rng.randint(10 ** 6, 10 ** 8, half).astype("float64") * 1e8
+    # every partition (Id_2 = position mod 4) receives complete +X / -X pairs and a few small positive values
+    parts = []
+    for pnum in range(4):
+        m = mag[pnum::4]
+        v = np.concatenate([m, -m, rng.randint(1, 11, max(4, nv // 600)).astype("float64")])
+        parts.append(pd.DataFrame({"Id_2": pnum, "Me_1": v}))
+    dfc = pd.concat(parts, ignore_index=True)
+    dfc.insert(0, "Id_1", np.arange(len(dfc)))
+    dfc = dfc[["Id_1", "Id_2", "Me_1"]]
+    dfc = dfc.sample(frac=1.0, random_state=seed).reset_index(drop=True)
     S = eng.structures(eng.structure("DS_1", comps), eng.structure("DS_2", comps), eng.structure("DS_3", comps3), eng.structure("DS_T", compsT), eng.structure("DS_V", compsV), eng.structure("DS_C", compsC))
     return S, {"DS_1": table(0), "DS_2": table(n // 2), "DS_3": table(0, True), "DS_T": dft, "DS_V": dfv, "DS_C": dfc}
 
